@@ -55,14 +55,73 @@ def run(ctx):
         m, il = ctx.differential("unit_api", "api", aexe, aops, label="api")
         amon.run(aops, il)
     ctx.rule += "; unit_api: the real xcm.c wrappers (blocking and non-blocking xcm_send/xcm_receive/xcm_finish/xcm_set_blocking) over a scripted transport and poll(), traces of transport calls and waits compared with the Lean Api model; monitor: offered ranges stay inside the caller's buffer, reported byte count = bytes the transport accepted, no -1/EINTR after acceptance"
+    stream_part(ctx)
     # the TLS connection machine (xcm_tp_btls.c) against the Lean Btls model, with its monitors
     from gen import btls as _btls
     _btls.run_part(ctx, 60 if ctx.tier == "quick" else 3000, exhaustive=True)
     ctx.rule += (" unit_btls: the real xcm_tp_btls.c with scripted OpenSSL answers vs the Lean Btls model: every OpenSSL event x first observer x state x verdict, conn_update for every reachable (state, ssl_condition, ssl_wants) x condition x SSL_has_pending, seeded random histories; stickiness/discoverer/rc-range/gating monitors.")
 
 
+def build_stream():
+    return common.build_harness("sys_stream", ["sys_stream.c"], link_lib=True, libs=["ssl", "crypto", "cares"], whole=True)
+
+
+def stream_part(ctx):
+    """real btcp/btls connections: accepted ranges vs received bytes under every retry policy"""
+    from gen import sysattr
+    exe = build_stream()
+    cmds = []
+    for proto in ("btcp", "btls"):
+        for pol in ("same", "longer", "different", "shorter"):
+            for sd in range(1 if ctx.tier == "quick" else 6):
+                for side in "ca":
+                    cmds.append("STREAM %s %d %s %d %s" % (proto, ctx.seed * 100 + sd, pol, 60 if ctx.tier == "quick" else 400, side))
+    rc, out, err = sysattr.run(exe, cmds, ctx, timeout=1500)
+    ctx.traces += 1
+    if rc != 0 or len(out) != len(cmds):
+        ctx.violation("sys_stream:crash:" + common.crash_site(err), "sys_stream died at %r" % (cmds[min(len(out), len(cmds) - 1)]),
+                      {"harness": "sys_stream", "ops": [cmds[min(len(out), len(cmds) - 1)]], "stderr": err[-3000:]})
+        return
+    for c, o in zip(cmds, out):
+        ctx.evaluations += 1
+        w = c.split()
+        rep = {"harness": "sys_stream", "ops": [c], "impl_out": o}
+        if o.startswith("fail"):
+            ctx.corr_break("sys_stream", "%s: %s" % (c, o), rep)
+            continue
+        f = dict(x.split("=", 1) for x in o.split())
+        ctx.count("stream.%s.%s" % (w[1], w[3]))
+        ctx.count("stream.refused_calls", int(f["refused"]))
+        ctx.count("stream.bytes", int(f["accepted"]))
+        ctx.nontriv((w[1], w[3], f["equal"], f["fail"]))
+        if f["bad_rc"] != "0":
+            ctx.violation("sys_stream:monitor:rc-range:%s" % w[1], "xcm_send returned 0 or more than len for len > 0: " + o, rep)
+        if f["over_cap"] != "0":
+            ctx.violation("sys_stream:monitor:capacity:%s" % w[1], "xcm_receive returned more than capacity: " + o, rep)
+        if f["fail"] != "-":
+            ctx.violation("sys_stream:monitor:failed:%s:%s:%s" % (w[1], w[3], f["fail"]),
+                          "an undisturbed %s connection failed (%s) with retry policy '%s' after a refused xcm_send: %s" % (w[1], f["fail"], w[3], o), rep)
+        elif f["prefix_broken"] != "0" or f["equal"] != "1" or f["eof"] != "1":
+            size = "within-one-record" if 0 < int(f["worst_span"]) <= 16384 else "beyond-one-record"
+            ctx.violation("sys_stream:monitor:stream-mismatch:%s:%s:%s" % (w[1], w[3], size),
+                          "%s, retry policy '%s': the received bytes are not the concatenation of the accepted ranges (bytes of a refused call "
+                          "reached the stream / accepted bytes were lost): %s" % (w[1], w[3], o), rep)
+    ctx.sample({"harness": "sys_stream", "cmds": cmds[:2], "impl_out": out[:2]}, cap=8)
+    ctx.rule += ("; sys_stream: real btcp and btls connections in one process, generated cuts and receive capacities, a slow reader so "
+                 "that xcm_send is refused with EAGAIN, and after a refusal the next offer is the same bytes / the same and more / "
+                 "different bytes of the same length / a shorter different buffer; received bytes compared with the accepted ranges at "
+                 "every receive and after flush + graceful close")
+
+
 def replay(path):
     r = json.load(open(path))
+    if r.get("harness") == "sys_stream":
+        from gen import sysattr
+        class C:
+            rundir = common.RUN + "/replay"
+        rc, out, err = sysattr.run(build_stream(), r["ops"], C, timeout=600)
+        print("impl (rc=%d):" % rc, *out, sep="\n  ")
+        return 0
     if r.get("harness") == "unit_btls":
         from gen import btls as _btls
         return _btls.replay(r)
